@@ -1,7 +1,7 @@
-import SnaxVerif.Lemmas.PipelineEquiv
+import SnaxVerif.Lemmas.PipelineConstruct
 /-! # C15 — pipelined double-buffered loops equal the sequential loop
 
-Model: `Model/Pipeline.lean` (the three passes WITH fix F16). `Prog` = stages after PipelineDuplicateBuffers; an event
+Model: `Model/Pipeline.lean` (the three passes WITH fixes F16 and FC15b). `Prog` = stages after PipelineDuplicateBuffers; an event
 `⟨k, o, n⟩` = op `o` of stage `k` on iteration `n`; `exec p true` runs events with parity-selected buffers, `exec p false`
 with the original single buffers. -/
 namespace SnaxVerif.C15
@@ -86,6 +86,68 @@ theorem C15_equiv_partial {p : Prog} {N : Nat} (hs : safeB p = true) {sched : Li
 theorem pipeEvents_same_events {p : Prog} {N : Nat} {e : Ev} : e ∈ pipeEvents p N ↔ e ∈ seqEvents p N :=
   mem_pipeEvents.trans mem_seqEvents.symm
 
+/-- FC15b: whatever the three passes pipeline, nothing is left in the loop body behind the pipeline (clause NoTrailing is a
+fact established by ConstructPipeline) -/
+theorem C15_no_trailing {l : Loop} {st : List (List SOp)} {tr : List Tok} {u : Unrolled}
+    (h : run l = .ok (.pipelined st tr u)) : tr = [] := by
+  obtain ⟨p, hc, _, rfl, _⟩ := run_pipelined h
+  exact construct_no_trailing hc
+
+/-- PipelineDuplicateBuffers establishes the side conditions of the equivalence theorems: `dupWF` always, `safeB` for
+every input satisfying the input clauses `inputOK` (TilesAligned, OneWriterStage) -/
+theorem duplicate_establishes_side_conditions {tiles : List (Nat × Nat × Bool)} {P st : List (List SOp)}
+    (h : duplicate P = .ok st) (hnd : inputNoDup P = true) :
+    dupWF ⟨tiles, st⟩ = true ∧ (inputOK tiles P = true → safeB ⟨tiles, st⟩ = true) :=
+  duplicate_establishes h hnd
+
+/-- double buffering refines the single buffer in the sequential order: for every trip count and stage count, the loop run
+with the parity-selected copies and the loop run with the original buffers agree on every location that is not a copy of
+a duplicated allocation -/
+theorem double_buffer_refines {p : Prog} (hwf : dupWF p = true) (m : Mem) (N : Nat) (a : Loc)
+    (ha : isDupLoc p a = false) : exec p true (seqEvents p N) m a = exec p false (seqEvents p N) m a :=
+  double_eq_single hwf m N a ha
+
+/-- ... and of a duplicated allocation `b` the copy selected by the last iteration (`(N-1) mod 2`) holds exactly what the
+single buffer holds after the original loop (this is the precise content of finding DC15a) -/
+theorem dup_last_copy {p : Prog} (hwf : dupWF p = true) (m : Mem) (N : Nat) {k b : Nat}
+    (hw : (k, true, Opnd.dup b) ∈ touches p) :
+    exec p true (seqEvents p (N + 1)) m (.buf b (N % 2)) = exec p false (seqEvents p (N + 1)) m (.buf b 0) :=
+  double_last_copy hwf m N hw
+
+/-- C15 against the ORIGINAL loop: every barrier-respecting schedule of the pipelined, double-buffered program leaves in
+every location that is not a copy of a duplicated allocation (clause NotDuplicated, DC15a) exactly what the original
+sequential loop with its single buffers leaves there; for every trip count, stage count and initial memory. -/
+theorem C15_equiv_original_partial {p : Prog} {N : Nat} (hs : safeB p = true) (hwf : dupWF p = true) {sched : List Ev}
+    (h : Schedule p N sched) (m : Mem) (a : Loc) (ha : isDupLoc p a = false) :
+    exec p true sched m a = exec p false (seqEvents p N) m a := by
+  rw [schedule_eq_seq (safe_noBadConflict hs) h m]
+  exact double_eq_single hwf m N a ha
+
+/-- C15 end to end over the model of the three passes: if ConstructPipeline accepts the loop and PipelineDuplicateBuffers
+succeeds on its stages, then — under the input clauses only (`inputOK`: TilesAligned, OneWriterStage; `inputNoDup`: trivially
+true of every input) — nothing is left behind the pipeline, the trip count `N` is a constant with `stages - 1 ≤ N`, the
+program emitted by UnrollPipeline is the ideal slot sequence, and every schedule agrees with the ORIGINAL loop on every
+non-duplicated location. -/
+theorem C15_end_to_end_partial {l : Loop} {p : Pipe} {st : List (List SOp)} {tiles : List (Nat × Nat × Bool)}
+    (hc : construct l = .ok (some p)) (hd : duplicate p.stages = .ok st)
+    (hnd : inputNoDup p.stages = true) (hin : inputOK tiles p.stages = true) :
+    p.trailing = [] ∧ l.lb = some 0 ∧ l.step = some 1 ∧
+    ∃ N : Nat, l.ub = some (N : Int) ∧ st.length - 1 ≤ N ∧
+      evalUnroll st.length N = (slots st.length N).map castSlot ∧
+      ∀ (sched : List Ev) (m : Mem), Schedule ⟨tiles, st⟩ N sched → ∀ a, isDupLoc ⟨tiles, st⟩ a = false →
+        exec ⟨tiles, st⟩ true sched m a = exec ⟨tiles, st⟩ false (seqEvents ⟨tiles, st⟩ N) m a := by
+  obtain ⟨hlb, hstep, h2, ub, hub, hge⟩ := accepted_bounds hc
+  obtain ⟨hwf, hsafe⟩ := duplicate_establishes (tiles := tiles) hd hnd
+  have hlen := duplicate_length hd
+  refine ⟨construct_no_trailing hc, hlb, hstep, ub.toNat, ?_, ?_, ?_, ?_⟩
+  · rw [hub]
+    congr 1
+    omega
+  · omega
+  · exact unroll_eq_slots (by omega) (by omega)
+  · intro sched m hsch a ha
+    exact C15_equiv_original_partial (hsafe hin) hwf hsch m a ha
+
 /-! ## witnesses -/
 
 /-- a 3-stage chain: tile 0 -> dup 0 -> dup 1 -> tile 1 (as produced by `duplicate`) -/
@@ -98,6 +160,11 @@ def chain3Loop : Loop := ⟨some 0, some 4, some 1, false,
 
 example : run chain3Loop = .ok (.pipelined chain3.stages [] (unroll 3)) := by decide
 example : safeB chain3 = true := by decide
+example : dupWF chain3 = true ∧ isDupLoc chain3 (.cell 1 3) = false ∧ isDupLoc chain3 (.buf 6 0) = false ∧ isDupLoc chain3 (.buf 1 1) = true := by decide
+/-- the stages of `chain3Loop` before duplication satisfy the input clauses, and `duplicate` maps them to `chain3` -/
+def chain3In : List (List SOp) :=
+  [[⟨0, [.tile 0], [.alloc 0]⟩], [⟨1, [.alloc 0, .alloc 5], [.alloc 1]⟩], [⟨2, [.alloc 1], [.tile 1, .alloc 6]⟩]]
+example : inputNoDup chain3In = true ∧ inputOK chain3.tiles chain3In = true ∧ duplicate chain3In = .ok chain3.stages := by decide
 example : (evalUnroll 3 4).length = 6 ∧ (slots 3 4).map castSlot = evalUnroll 3 4 := by decide
 example : (1, 2) ∈ slot 3 4 3 := by decide
 example : (⟨1, 0, 2⟩ : Ev).Valid chain3 4 ∧ (⟨2, 0, 1⟩ : Ev).Valid chain3 4 := by unfold Ev.Valid; decide
@@ -134,21 +201,24 @@ theorem C15_alias_fails :
 def trailingLoop : Loop := ⟨some 0, some 4, some 1, false,
   [.idx, .op ⟨0, [.tile 0], [.alloc 0]⟩, .sync, .op ⟨1, [.alloc 0], [.tile 1]⟩, .sync, .idx, .op ⟨2, [.tile 0], [.tile 2]⟩, .sync]⟩
 
-/-- DC15b (clause NoTrailing): ConstructPipeline accepts a body with operations behind the stages; they stay in the loop
-whose lower bound becomes `stages - 1` -/
-theorem C15_trailing_fails :
-    ¬ (∀ (l : Loop) (st : List (List SOp)) (tr : List Tok) (u : Unrolled), run l = .ok (.pipelined st tr u) → tr = []) := by
-  intro h
-  have := h trailingLoop [[⟨0, [.tile 0], [.dup 0]⟩], [⟨1, [.dup 0], [.tile 1]⟩]] [.idx, .op ⟨2, [.tile 0], [.tile 2]⟩, .sync]
-    (unroll 2) (by decide)
-  exact absurd this (by decide)
+/-- DC15b is fixed by FC15b: such a loop is declined -/
+example : run trailingLoop = .ok .declined := by decide
 
-/-- the full statement is false of the code (already because of DC15b) -/
+/-- DC15b (fixed by FC15b): ops left in the loop body behind the pipeline ran only for the iterations of the steady-state
+loop, `N - (S - 1) < N` of them -/
+theorem trailing_orig_fails {S N : Nat} (hS : 2 ≤ S) (hN : S - 1 ≤ N) :
+    (List.range ((N : Int) - ((unroll S).newLb : Int)).toNat).length < N := by
+  simp only [unroll, List.length_range]
+  omega
+
+def chain2Loop : Loop := ⟨some 0, some 2, some 1, false,
+  [.idx, .idx, .op ⟨0, [.tile 0], [.alloc 0]⟩, .sync, .op ⟨1, [.alloc 0], [.tile 1]⟩, .sync]⟩
+
+/-- the full statement is false of the code (because of DC15a: the duplicated allocation itself) -/
 theorem C15_statement_fails : ¬ C15_statement := by
   intro h
-  have := (h trailingLoop [] [[⟨0, [.tile 0], [.dup 0]⟩], [⟨1, [.dup 0], [.tile 1]⟩]] [.idx, .op ⟨2, [.tile 0], [.tile 2]⟩, .sync]
-    (unroll 2) 4 (seqEvents ⟨[], [[⟨0, [.tile 0], [.dup 0]⟩], [⟨1, [.dup 0], [.tile 1]⟩]]⟩ 4) (by decide) (by decide)
-    ⟨List.Perm.refl _, by decide, by unfold Indep; decide⟩).1
+  have := (h chain2Loop (chain2 0).tiles (chain2 0).stages [] (unroll 2) 2 (seqEvents (chain2 0) 2) (by decide) (by decide)
+    ⟨List.Perm.refl _, by decide, by unfold Indep; decide⟩).2 (.buf 0 0)
   exact absurd this (by decide)
 
 /-! ## a view computed in the loop body as stage-to-stage buffer (seed C15-r2m2) -/
